@@ -202,7 +202,35 @@ def h_population(ctx: Ctx, cfg):
         undo()
 
 
-HARNESSES = {"evaluator": h_evaluator, "two_problems": h_two_problems, "agree": h_agree, "population": h_population}
+def _pool_fitness(tok):
+    return float(tok.k * 10 + 1)
+
+
+def h_real_pool(ctx: Ctx, cfg):
+    """no symbols: the REAL pathos process pool on a mixed population (some already evaluated, one
+    repeated) must leave the same fitness values and counter as the sequential evaluator"""
+
+    def run():
+        out = {}
+        for kind in ("seq", "par"):
+            problem = SingleObjectiveProblem(_pool_fitness, minimize=True)
+            rep = TokRep()
+            inds = [Individual(rep.create_genotype(None), rep) for _ in range(4)]
+            ev = SequentialEvaluator() if kind == "seq" else ParallelEvaluator()
+            ev.evaluate(problem, inds[:1])
+            batch = [inds[0], inds[1], inds[1], inds[2], inds[3]]
+            ev.evaluate(problem, batch)
+            out[kind] = ([i.get_fitness(problem).fitness_components[0] for i in inds], [i.get_fitness(problem).maximizing_aggregate for i in inds], ev.number_of_evaluations())
+        return out
+
+    out = ctx.concrete(run)
+    ctx.reached()
+    ctx.require(out["seq"][0] == [1.0, 11.0, 21.0, 31.0], "eval:recorded-fitness-is-not-the-program's", out)
+    ctx.require(out["seq"] == out["par"], "eval:evaluators-disagree-on-fitness", out)
+    ctx.require(out["par"][2] == 4, "eval:counter-differs-from-fitness-invocations", out)
+
+
+HARNESSES = {"real_pool": h_real_pool, "evaluator": h_evaluator, "two_problems": h_two_problems, "agree": h_agree, "population": h_population}
 
 
 def obligations(tier: str):
@@ -221,6 +249,7 @@ def obligations(tier: str):
         add("evaluator", f"{ev}_multi_bool", evaluator=ev, problem="multi_bool", components=2, n=2)
         add("two_problems", f"{ev}_two_problems", evaluator=ev, n=2)
         add("population", f"{ev}_population", evaluator=ev, n=2 if not T else 3)
+    add("real_pool", "concrete_real_process_pool_agrees_with_sequential", timeout=120)
     add("agree", "agree_single", problem="single", n=N, preevaluated=True, duplicates=True)
     add("agree", "agree_multi", problem="multi", components=2, n=2, preevaluated=True)
     return obs
